@@ -919,7 +919,17 @@ theorem runMi_ok : ∀ (prog : List Mi) (s s' : St), runMi s prog = .ok s' → I
 
 theorem Inv_init : Inv St.init := by
   intro c
-  unfold CellOK metaOf St.init H
-  simp [cnt_replicate, isP_num, cnt_nil, heapCnt_nil]
+  match c with
+  | 0 => unfold CellOK; show RefOK .prog 2 (H St.init 0); unfold RefOK; decide
+  | 1 => unfold CellOK; show RefOK .prog 1 (H St.init 1); unfold RefOK; decide
+  | c + 2 =>
+    unfold CellOK
+    have hm : metaOf St.init (c + 2) = none := by
+      unfold metaOf St.init
+      simp
+    rw [hm]
+    show H St.init (c + 2) = 0
+    unfold H St.init heapCnt cnt cBase cProg
+    simp [List.count_append, List.count_replicate]
 
 end NV.C06
